@@ -731,3 +731,233 @@ Proof.
       destruct (e_proc e) as [[x y]|]; reflexivity. }
     rewrite Hns. apply retrieve_conn. reflexivity.
 Qed.
+
+Lemma wan_udp_stateless : forall P e st pk,
+  inv_conn (ks_conn st) -> 0 < e_now e -> e_ingress_if e = 0 ->
+  pp_l4 pk = IPPROTO_UDP -> k_proto (pp_key pk) = IPPROTO_UDP ->
+  is_short_lived_udp_traffic (pp_key pk) = true ->
+  refines (wan_egress_udp P e st pk) (pp_key pk) (e_now e)
+          (spec_wan_egress false P e (abs_conn (ks_conn st)) (udp_pkt pk)).
+Proof.
+  intros P e st pk Hi Hnow Hif Hl4 Hkp Hsl.
+  assert (Ht : (pp_l4 pk =? IPPROTO_TCP) = false) by (rewrite Hl4; reflexivity).
+  unfold wan_egress_udp.
+  unfold spec_wan_egress. rewrite Hif. cbn [N.eqb negb p_class udp_pkt].
+  change (from_dae P e) with (pid_is_control_plane P e).
+  destruct (pid_is_control_plane P e); [apply refines_ok; [reflexivity | exact Hi]|].
+  change (p_stateless (udp_pkt pk)) with (is_short_lived_udp_traffic (pp_key pk)). rewrite Hsl.
+  cbn [negb].
+  rewrite (query_eq e pk (udp_pkt pk) true eq_refl eq_refl eq_refl) by (rewrite Hl4; exact Hkp).
+  cbv zeta.
+  set (pname := match e_proc e with Some (_, nm) => nm | None => 0 end).
+  set (pid := match e_proc e with Some (pid, _) => pid | None => 0 end).
+  set (q := rquery_of e pk true pname).
+  destruct (e_route e q <? 0)%Z eqn:Hw.
+  { rewrite (decide_neg _ Hw). apply refines_shot; [reflexivity | exact Hi]. }
+  destruct (unpack (e_route e q)) as [[o m] mu] eqn:Hu.
+  rewrite (decide_unpack _ _ _ _ Hw Hu).
+  apply (wan_tail_refines e pk (udp_pkt pk)); cbn [ks_conn]; try reflexivity; try assumption.
+  - rewrite Hl4; exact Hkp.
+  - rewrite Ht; reflexivity.
+  - intros _. rewrite (Hi _ Hsl). apply retrieve_hand. exact Hnow.
+Qed.
+
+
+Definition wan_us1 (e : env) (pk : ppkt) (us : cstate) (o m mu mac : N) : cstate :=
+  if negb (o =? OUTBOUND_DIRECT) || negb (m =? 0) || negb (mu =? 0) then
+    mk_cs (cs_wan_in us) (cs_state us) (cs_last us) m o mu (pp_dscp pk) 1 mac
+          (match e_proc e with Some (_, nm) => nm | None => cs_pname us end)
+          (match e_proc e with Some (pid, _) => pid | None => cs_pid us end)
+  else us.
+Lemma wan_us1_abs : forall e pk us o m mu mac,
+  (if needs_record (mk_dec o m mu) then with_decision (abs_cs us) (mk_dec o m mu) (pp_dscp pk) mac (e_proc e) else abs_cs us)
+  = abs_cs (wan_us1 e pk us o m mu mac).
+Proof.
+  intros. unfold needs_record, wan_us1. cbn [d_out d_mark d_must]. change OUT_DIRECT with OUTBOUND_DIRECT.
+  rewrite !negb_andb.
+  destruct (negb (o =? OUTBOUND_DIRECT) || negb (m =? 0) || negb (mu =? 0)); [|reflexivity].
+  destruct (e_proc e) as [[x y]|]; reflexivity.
+Qed.
+
+
+Lemma wan_udp_tracked : forall P e st pk,
+  inv_conn (ks_conn st) -> e_ingress_if e = 0 ->
+  pp_l4 pk = IPPROTO_UDP -> k_proto (pp_key pk) = IPPROTO_UDP ->
+  is_short_lived_udp_traffic (pp_key pk) = false ->
+  refines (wan_egress_udp P e st pk) (pp_key pk) (e_now e)
+          (spec_wan_egress false P e (abs_conn (ks_conn st)) (udp_pkt pk)).
+Proof.
+  intros P e st pk Hi Hif Hl4 Hkp Hsl.
+  assert (Ht : (pp_l4 pk =? IPPROTO_TCP) = false) by (rewrite Hl4; reflexivity).
+  assert (H53 : (k_dport (pp_key pk) =? 53) = false).
+  { unfold is_short_lived_udp_traffic in Hsl. rewrite Hkp in Hsl. cbn [N.eqb IPPROTO_UDP Pos.eqb andb] in Hsl.
+    apply orb_false_iff in Hsl. tauto. }
+  unfold wan_egress_udp.
+  unfold spec_wan_egress. rewrite Hif. cbn [N.eqb negb p_class udp_pkt].
+  change (from_dae P e) with (pid_is_control_plane P e).
+  destruct (pid_is_control_plane P e); [apply refines_ok; [reflexivity | exact Hi]|].
+  change (p_stateless (udp_pkt pk)) with (is_short_lived_udp_traffic (pp_key pk)). rewrite Hsl.
+  cbn [negb].
+  rewrite (query_eq e pk (udp_pkt pk) true eq_refl eq_refl eq_refl) by (rewrite Hl4; exact Hkp).
+  change (p_key (udp_pkt pk)) with (pp_key pk).
+  change (p_dscp (udp_pkt pk)) with (pp_dscp pk). change (p_mac (udp_pkt pk)) with (pp_hsource pk).
+  rewrite (udp_track_abs _ _ _ _ no_args eq_refl eq_refl).
+  pose proof (mark_udp_get (ks_conn st) (pp_key pk) false no_args (e_now e)) as Hget.
+  pose proof (mark_udp_inv (ks_conn st) (pp_key pk) false no_args (e_now e) Hi Hsl) as Hinv.
+  destruct (mark_udp_seen (ks_conn st) (pp_key pk) false no_args (e_now e)) as [us conn1].
+  cbn [fst snd] in *. specialize (Hget us conn1 eq_refl).
+  change (fe_wan_in (abs_cs us)) with (cs_wan_in us).
+  destruct (cs_wan_in us) eqn:Hwi; [apply refines_ok; [reflexivity | exact Hinv]|].
+  rewrite H53. cbn [negb].
+  change (fe_dec (abs_cs us)) with (if cs_has us =? 0 then None else Some (mk_dec (cs_out us) (cs_mark us) (cs_must us))).
+  set (pname := match e_proc e with Some (_, nm) => nm | None => 0 end).
+  set (pid := match e_proc e with Some (pid, _) => pid | None => 0 end).
+  set (q := rquery_of e pk true pname).
+  destruct (cs_has us =? 0) eqn:Hhas; cbn [negb].
+  - destruct (e_route e q <? 0)%Z eqn:Hw.
+    { rewrite (decide_neg _ Hw). apply refines_shot; [reflexivity | exact Hinv]. }
+    destruct (unpack (e_route e q)) as [[o m] mu] eqn:Hu.
+    rewrite (decide_unpack _ _ _ _ Hw Hu). cbn [orb].
+    change (if negb (o =? OUTBOUND_DIRECT) || negb (m =? 0) || negb (mu =? 0)
+            then mk_cs (cs_wan_in us) (cs_state us) (cs_last us) m o mu (pp_dscp pk) 1 (pp_hsource pk)
+                       (match e_proc e with Some (_, nm) => nm | None => cs_pname us end)
+                       (match e_proc e with Some (pid, _) => pid | None => cs_pid us end)
+            else us) with (wan_us1 e pk us o m mu (pp_hsource pk)).
+    rewrite wan_us1_abs, touched_abs, <- set_abs.
+    apply (wan_tail_refines e pk (udp_pkt pk)); cbn [ks_conn]; try reflexivity.
+    + rewrite Hl4; exact Hkp.
+    + rewrite Ht; reflexivity.
+    + apply inv_conn_set; assumption.
+    + intros Hn. rewrite tab_get_set_eq.
+      unfold needs_control_plane in Hn. rewrite negb_andb in Hn.
+      unfold wan_us1. rewrite Hn. cbn [orb]. apply retrieve_conn. reflexivity.
+  - change (0 <? 0)%Z with false. cbv iota. cbn [orb].
+    change (fe_mac (abs_cs us)) with (cs_mac us).
+    change (if negb (cs_out us =? OUTBOUND_DIRECT) || negb (cs_mark us =? 0) || negb (cs_must us =? 0)
+            then mk_cs (cs_wan_in us) (cs_state us) (cs_last us) (cs_mark us) (cs_out us) (cs_must us) (pp_dscp pk) 1 (cs_mac us)
+                       (match e_proc e with Some (_, nm) => nm | None => cs_pname us end)
+                       (match e_proc e with Some (pid, _) => pid | None => cs_pid us end)
+            else us) with (wan_us1 e pk us (cs_out us) (cs_mark us) (cs_must us) (cs_mac us)).
+    rewrite wan_us1_abs, touched_abs, <- set_abs.
+    apply (wan_tail_refines e pk (udp_pkt pk)); cbn [ks_conn]; try reflexivity.
+    + rewrite Hl4; exact Hkp.
+    + rewrite Ht; reflexivity.
+    + apply inv_conn_set; assumption.
+    + intros _. rewrite tab_get_set_eq. unfold wan_us1.
+      destruct (negb (cs_out us =? OUTBOUND_DIRECT) || negb (cs_mark us =? 0) || negb (cs_must us =? 0));
+        apply retrieve_conn; [reflexivity | exact Hhas].
+Qed.
+
+Lemma wan_egress_refines_proof : forall P e st r,
+  wf_parse r -> inv st -> 0 < e_now e ->
+  let h := wan_egress P e st (parse_packet r) in
+  let s := spec_wan_egress false P e (abs_conn (ks_conn st)) (classify r) in
+  observe h (p_key (classify r)) (e_now e) = fst s /\ abs_conn (ks_conn (h_st h)) = snd s /\ inv (h_st h).
+Proof.
+  intros P e st [ret c] Hwf Hinv Hnow. cbv zeta.
+  change (refines (wan_egress P e st (parse_packet (ret, c))) (p_key (classify (ret, c))) (e_now e)
+                  (spec_wan_egress false P e (abs_conn (ks_conn st)) (classify (ret, c)))).
+  apply inv_is_inv_conn in Hinv.
+  destruct (e_ingress_if e =? 0) eqn:Hif.
+  2:{ unfold wan_egress, spec_wan_egress. rewrite Hif. apply refines_ok; [reflexivity | exact Hinv]. }
+  apply N.eqb_eq in Hif.
+  assert (Hsp : forall p, p_class p = PMalformed \/ p_class p = PIgnored ->
+                 spec_wan_egress false P e (abs_conn (ks_conn st)) p =
+                 (match p_class p with PMalformed => Drop | _ => Pass None end, abs_conn (ks_conn st))).
+  { intros p Hp. unfold spec_wan_egress. rewrite Hif. destruct Hp as [-> | ->]; reflexivity. }
+  destruct (ret <? 0)%Z eqn:Hneg.
+  { rewrite Hsp by (unfold classify; rewrite Hneg; left; reflexivity).
+    unfold parse_packet, classify. rewrite Hneg. unfold wan_egress. rewrite Hif, Hneg.
+    apply refines_shot; [reflexivity | exact Hinv]. }
+  destruct (c_l4proto c =? IPPROTO_ICMPV6) eqn:H58.
+  { rewrite Hsp by (unfold classify; rewrite Hneg, H58, orb_true_r; right; reflexivity).
+    unfold parse_packet, classify. rewrite Hneg, H58, orb_true_r. unfold wan_egress. rewrite Hif.
+    apply refines_ok; [reflexivity | exact Hinv]. }
+  rewrite (parse_packet_some _ _ Hneg H58).
+  destruct (ret =? 0)%Z eqn:H0.
+  2:{ assert (0 <? ret = true)%Z as Hpos by lia.
+      rewrite Hsp by (unfold classify; rewrite Hneg, Hpos; right; reflexivity).
+      unfold classify. rewrite Hneg, Hpos. cbn [orb].
+      unfold wan_egress. rewrite Hif, H0, Hneg. apply refines_ok; [reflexivity | exact Hinv]. }
+  apply Z.eqb_eq in H0. subst ret.
+  destruct (Hwf eq_refl) as (Hp & _ & _). cbn [snd] in Hp.
+  assert (Hweq : forall pk, wan_egress P e st (0%Z, Some pk) =
+                   if pp_l4 pk =? IPPROTO_TCP then wan_egress_tcp P e st pk
+                   else if pp_l4 pk =? IPPROTO_UDP then wan_egress_udp P e st pk
+                   else ret_act TC_ACT_OK None None st).
+  { intro pk. unfold wan_egress. rewrite Hif. reflexivity. }
+  rewrite Hweq. change (pp_l4 (pk_of c)) with (c_l4proto c).
+  destruct Hp as [Hp | [Hp | Hp]].
+  - rewrite (classify_tcp _ Hp), Hp. cbn [N.eqb IPPROTO_TCP Pos.eqb].
+    destruct (tcp_flags_new (c_tcp c)) eqn:Hnew.
+    + apply wan_tcp_new; try assumption.
+    + apply wan_tcp_old; try assumption.
+  - rewrite (classify_udp _ Hp), Hp. cbn [N.eqb IPPROTO_TCP IPPROTO_UDP Pos.eqb].
+    destruct (is_short_lived_udp_traffic (pp_key (pk_of c))) eqn:Hsl.
+    + apply wan_udp_stateless; try assumption.
+    + apply wan_udp_tracked; try assumption.
+  - rewrite Hp in H58. discriminate H58.
+Qed.
+
+(* ---------------------------------------------------------------------------------------------- *)
+(* 6. the reverse-direction hooks                                                                  *)
+(* ---------------------------------------------------------------------------------------------- *)
+Lemma short_lived_rev : forall k, is_short_lived_udp_traffic (rev_key k) = is_short_lived_udp_traffic k.
+Proof.
+  intro k. unfold is_short_lived_udp_traffic. cbn [rev_key k_proto k_dport k_sport].
+  rewrite (orb_comm (k_sport k =? 53)). reflexivity.
+Qed.
+
+Lemma reverse_refines_proof : forall le e st r,
+  wf_parse r -> inv st ->
+  let h := reverse_hook le e st r in
+  abs_conn (ks_conn (h_st h)) = spec_reverse_hook e (abs_conn (ks_conn st)) (classify r) /\ inv (h_st h) /\
+  ks_hand (h_st h) = ks_hand st.
+Proof.
+  intros le e st [ret c] Hwf Hinv. cbv zeta. apply inv_is_inv_conn in Hinv.
+  unfold reverse_hook.
+  destruct (ret =? 0)%Z eqn:H0; cbn [negb].
+  2:{ destruct (ret <? 0)%Z eqn:Hneg.
+      - unfold classify. rewrite Hneg. repeat split; assumption.
+      - assert (0 <? ret = true)%Z as Hpos by lia. unfold classify. rewrite Hneg, Hpos. repeat split; assumption. }
+  apply Z.eqb_eq in H0. subst ret.
+  destruct (Hwf eq_refl) as (Hp & _ & _). cbn [snd] in Hp.
+  destruct Hp as [Hp | [Hp | Hp]].
+  - rewrite (classify_tcp _ Hp), Hp. cbn [N.eqb IPPROTO_TCP IPPROTO_ICMPV6 Pos.eqb]. rewrite andb_false_r. cbn [andb].
+    unfold spec_reverse_hook. cbn [p_class tcp_pkt].
+    rewrite (tcp_track_abs _ _ _ _ _ no_args eq_refl).
+    change (p_new (tcp_pkt (pk_of c))) with (tcp_flags_new (c_tcp c)).
+    change (p_finrst (tcp_pkt (pk_of c))) with (tcp_flags_finrst (c_tcp c)).
+    change (p_key (tcp_pkt (pk_of c))) with (fst (get_tuples c)).
+    cbn [snd].
+    assert (Hsl : is_short_lived_udp_traffic (rev_key (fst (get_tuples c))) = false).
+    { rewrite short_lived_rev. unfold is_short_lived_udp_traffic.
+      change (k_proto (fst (get_tuples c))) with (c_l4proto c). rewrite Hp. reflexivity. }
+    pose proof (mark_tcp_inv (ks_conn st) (rev_key (fst (get_tuples c))) true (tcp_flags_new (c_tcp c))
+                  (tcp_flags_finrst (c_tcp c)) no_args (e_now e) Hinv Hsl) as Hi1.
+    destruct (mark_tcp_seen (ks_conn st) (rev_key (fst (get_tuples c))) true (tcp_flags_new (c_tcp c))
+                  (tcp_flags_finrst (c_tcp c)) no_args (e_now e)) as [ts conn1].
+    cbn [snd] in *. repeat split. exact Hi1.
+  - rewrite (classify_udp _ Hp), Hp. cbn [N.eqb IPPROTO_TCP IPPROTO_UDP IPPROTO_ICMPV6 Pos.eqb]. rewrite andb_false_r. cbn [andb].
+    unfold spec_reverse_hook. cbn [p_class udp_pkt].
+    assert (Hst : p_stateless (udp_pkt (pk_of c)) = (u_sport (c_udp c) =? 53) || (u_dport (c_udp c) =? 53)).
+    { unfold p_stateless, udp_pkt, pk_of, get_tuples.
+      cbn [p_key pp_key fst k_proto k_sport k_dport]. rewrite Hp. cbn [N.eqb IPPROTO_TCP IPPROTO_UDP Pos.eqb andb].
+      apply orb_comm. }
+    rewrite Hst.
+    destruct ((u_sport (c_udp c) =? 53) || (u_dport (c_udp c) =? 53)) eqn:H53.
+    + repeat split; assumption.
+    + rewrite (udp_track_abs _ _ _ _ no_args eq_refl eq_refl).
+      change (p_key (udp_pkt (pk_of c))) with (fst (get_tuples c)).
+      cbn [snd].
+      assert (Hsl : is_short_lived_udp_traffic (rev_key (fst (get_tuples c))) = false).
+      { rewrite short_lived_rev. change (is_short_lived_udp_traffic (fst (get_tuples c))) with (p_stateless (udp_pkt (pk_of c))).
+        rewrite Hst. reflexivity. }
+      pose proof (mark_udp_inv (ks_conn st) (rev_key (fst (get_tuples c))) true no_args (e_now e) Hinv Hsl) as Hi1.
+      destruct (mark_udp_seen (ks_conn st) (rev_key (fst (get_tuples c))) true no_args (e_now e)) as [us conn1].
+      cbn [snd] in *. repeat split. exact Hi1.
+  - assert (Hc : classify (0%Z, c) = mk_packet PIgnored z_key 0 0 false false false false).
+    { unfold classify. rewrite Hp. reflexivity. }
+    rewrite Hc, Hp. cbn [N.eqb IPPROTO_TCP IPPROTO_UDP IPPROTO_ICMPV6 Pos.eqb].
+    destruct (le && (e_ingress_if e =? 0) && true && (c_icmp_type c =? NDP_REDIRECT)); repeat split; assumption.
+Qed.
